@@ -1,5 +1,7 @@
 import PySMT.Proofs.C05Spec
 import PySMT.Proofs.C05Interp
+import PySMT.Proofs.C05Compose
+import PySMT.Proofs.WalkerInstSubst
 /-!
 # C05 — substitution: property theorems (obligations)
 
@@ -8,8 +10,14 @@ Model: `PySMT/Impl/Subst.lean` (`substMG`, `substMS`, `interpret`, `substitute`)
 Specification: `PySMT/Spec/Subst.lean` (`mgSpec`, `msSpec`, `NoCapture`, `updSyms`, `updFns`) and the
 reference semantics `eval`.
 
-Hypotheses used below (all decidable, all satisfied by every term a `FormulaManager` builds — the
-harness checks `Build.normal` on every generated formula):
+What is a theorem about what: every statement below is about the hand-written model `substMG` /
+`substMS` (a recursive function on trees); its agreement with `pysmt/substituter.py` is tested on every
+run (harness K), not proved; that the one-shot memoised DAG walk of the code computes this recursive
+function is `substitute_walk_eq_partial` below (re-exported from `Proofs/WalkerInstSubst.lean`).
+
+Hypotheses used below (all decidable). That every term a `FormulaManager` builds satisfies them is
+NOT proved here (it is the subject of C03/C04); the harness checks `Build.normal` on every generated
+formula, and `subst_closed` shows that substitution preserves `wf`, `normal` and the type:
 * `t.wf`      : well-typed with the constructors' arities (`Impl/WF.lean`);
 * `normal t`  : the constructors' normal form (`And` has ≥ 2 arguments, no `Not(Not x)`, payload
                 widths as the constructors compute them, …);
@@ -23,19 +31,52 @@ namespace PySMT.C05
 open PySMT.Subst PySMT.Build
 open PySMT.SubstSpec (mgSpec msSpec appOf SMap NoCapture updSyms updFns upd Def)
 
-/-! ## the result is exactly the documented replacement (all terms, all term-keyed maps, all
-function interpretations, both strategies, both environment defaults) -/
+/-! ## the two strategies (all terms, all term-keyed maps, all function interpretations, both
+environment defaults)
 
-/-- `MGSubstituter` computes the most-general replacement: the outermost matching sub-term is replaced … -/
+What these two theorems say — and what they do not. `mgSpec` / `msSpec` (`Spec/Subst.lean`, which
+imports nothing of the model) are parametric in the constructor layer `mk`; here `mk := Build.rebuild`,
+the model of the `FormulaManager` constructors, and `below` / `find` / `appOf` are the specification's own
+(three-line) versions of the restriction to keys without bound variables, the dictionary lookup and the
+instantiation of an interpreted application. The content is therefore: **the post-order callbacks of the
+walker** — children first, then MG looks the *original* node up and only otherwise rebuilds, MS rebuilds
+and looks the *rebuilt* node up; a fresh walk with the reduced map under a binder; the interpretation
+handler at an application — **compute the top-down "outermost key wins" recursion (MG), resp. the
+bottom-up "rebuild, then replace the result if it is a key" recursion (MS), over the same constructor
+layer.** They do not say anything about the constructor layer itself; what `Build.rebuild` is, is said
+by `Build.rebuild_self` (the plain node on a normal node with unchanged children), `Build.rebuild_shape`
+(in general the plain node over the new children or one of four documented normalisations) and tested
+against the real constructors by K. -/
+
+/-- `MGSubstituter`: post-order with lookup of the original node = outermost matching key first. -/
 theorem substMG_eq_spec (envMs : Bool) (ι : IMap) (σ : Subst.TMap) (t : Term) :
-    substMG envMs ι σ t = mgSpec (appOf envMs (defsOf ι)) σ t := by
+    substMG envMs ι σ t = mgSpec rebuild (appOf rebuild envMs (defsOf ι)) σ t := by
   unfold substMG; rw [handlerOf_eq_appOf]; exact substG_mg_eq_spec _ t σ
 
-/-- … and `MSSubstituter` the most-specific one: children first, then the rebuilt node is looked up.
-In both, every application of an interpreted symbol is the instantiated body (`appOf`/`instantiate`). -/
+/-- `MSSubstituter`: children first, then the rebuilt node is looked up. In both, every application of
+an interpreted symbol is the instantiated body (`appOf`/`instantiate`). -/
 theorem substMS_eq_spec (envMs : Bool) (ι : IMap) (σ : Subst.TMap) (t : Term) :
-    substMS envMs ι σ t = msSpec (appOf envMs (defsOf ι)) σ t := by
+    substMS envMs ι σ t = msSpec rebuild (appOf rebuild envMs (defsOf ι)) σ t := by
   unfold substMS; rw [handlerOf_eq_appOf]; exact substG_ms_eq_spec _ t σ
+
+/-- The constructor layer on unchanged children of a normal node is the plain node
+(`IdentityDagWalker` is the identity there). -/
+theorem rebuild_is_node_on_normal (op : Op) (p : Payload) (args : List Term) (h : normalNode op p args = true) :
+    rebuild op p args = .node op args p := rebuild_self op p args h
+
+/-- **The one-shot memoised walk computes the recursive model** (re-export of
+`Walker.substitute_walk_eq_partial`): running the generic `DagWalker` model (work stack, memo, push
+override at quantifiers) with the `Substituter` callbacks for the map `σ` returns `substG ms h σ t`
+and leaves the walker idle. `_partial`: at a quantifier the nested fresh sub-substituter is taken to be
+its own recursive model (the induction over the quantifier depth is not carried out). -/
+theorem substitute_walk_eq_partial {M E : Type} [Walker.MemoLike M Term Term] [Walker.LawfulMemo M Term Term]
+    (ms : Bool) (h : FnHandler) (σ : Subst.TMap) (inval shortcut : Bool) (fuel : Nat) (t : Term)
+    (s : Walker.WState M Term)
+    (hi : Walker.FoldIdle (fun n => n.op.isQuantifier) (substG ms h σ) s) (hfuel : 2 * t.size ≤ fuel) :
+    let r := Walker.walk Walker.termGraph (fun n => n.op.isQuantifier)
+               (fun _ => Walker.cbOf (E := E) (Walker.substCb ms h σ)) inval shortcut fuel t s
+    r.1 = .ok (substG ms h σ t) ∧ Walker.FoldIdle (fun n => n.op.isQuantifier) (substG ms h σ) r.2 :=
+  Walker.substitute_walk_eq_partial ms h σ inval shortcut fuel t s hi hfuel
 
 /-! ## the substitution lemma -/
 
@@ -55,7 +96,8 @@ theorem subst_lemma_mg (envMs : Bool) (t : Term) (σ : SMap) (I : Interp) (hI : 
 /-- **Substitution lemma, `MSSubstituter`**. `_partial`: `MSSafe σ` — no replacement is the negation
 of another key. Without it the statement is false for the real code and for the model alike:
 `Not(a)[a ↦ Not(x), x ↦ y]` is rebuilt to `x`, which the most-specific strategy looks up again and
-replaces by `y` (known finding F50; the harness reproduces it). -/
+replaces by `y` (known finding F50; the harness reproduces it). `MSSafe` is sufficient, not
+necessary: see the example `σ50` on `a ∧ x` below, where it fails and the conclusion holds. -/
 theorem subst_lemma_ms_partial (envMs : Bool) (t : Term) (σ : SMap) (I : Interp) (hI : I.WF)
     (hwf : t.wf = true) (hn : normal t = true) (ha : ConstKeys t = true) (hσ : SMapOK σ)
     (hnc : NoCapture σ t = true) (hsafe : MSSafe σ) :
@@ -85,6 +127,59 @@ theorem keys_not_free_untouched (ms envMs : Bool) (t : Term) (σ : Subst.TMap) (
 theorem subst_empty (ms envMs : Bool) (t : Term) (hn : normal t = true) :
     (if ms then substMS envMs [] [] t else substMG envMs [] [] t) = t :=
   keys_not_free_untouched ms envMs t [] hn (fun _ h => by cases h)
+
+/-! ## arbitrary sub-term keys: replacement of equals by equals -/
+
+/-- interpretations that differ from `I` at most on the symbols in `B` -/
+def AgreeOff (B : List Sym) (I J : Interp) : Prop :=
+  (∀ s, s ∉ B → J.sym s = I.sym s) ∧ J.fn = I.fn ∧ J.dom = I.dom ∧ J.div0r = I.div0r ∧ J.div0i = I.div0i
+
+/-- **Replacement of equals by equals** — the semantic half for arbitrary sub-term keys, both
+strategies, no `NoCapture`, no `MSSafe`: if under every well-formed interpretation each key has the
+value of its replacement, substituting does not change the value of the term.
+Guards: `WfMap σ` (replacements well-formed, of the type of their key) and no key of `σ` is a key
+constant of an array value of `t` (`arrKeys`; the real `Array()` raises when such a key becomes a
+non-constant). -/
+theorem subst_equals (ms envMs : Bool) (σ : Subst.TMap) (hσ : WfMap σ) (t : Term)
+    (hwf : t.wf = true) (hn : normal t = true) (ha : ConstKeys t = true)
+    (hk : ∀ k ∈ arrKeys t, ∀ kv ∈ σ, kv.1 ≠ k)
+    (heq : ∀ J : Interp, J.WF → ∀ kv ∈ σ, eval J kv.1 = eval J kv.2) (I : Interp) (hI : I.WF) :
+    eval I (if ms then substMS envMs [] σ t else substMG envMs [] σ t) = eval I t := by
+  have := substG_equals ms (fun J => J.WF) (fun _ => True) (fun _ h => h)
+    (fun J x v hJ _ hv => hJ.bind x v (hJ.dom_sort _ v hv)) t σ hσ hwf hn ha (fun _ _ => trivial) hk heq I hI
+  cases ms <;> simpa [substMS, substMG, handlerOf_nil] using this
+
+/-- the sharper form: the keys need the values of their replacements only under the interpretations
+that arise while evaluating `t` under `I` — those that differ from `I` at most on the variables bound
+in `t` -/
+theorem subst_equals_local (ms envMs : Bool) (σ : Subst.TMap) (hσ : WfMap σ) (t : Term)
+    (hwf : t.wf = true) (hn : normal t = true) (ha : ConstKeys t = true)
+    (hk : ∀ k ∈ arrKeys t, ∀ kv ∈ σ, kv.1 ≠ k) (I : Interp) (hI : I.WF)
+    (heq : ∀ J : Interp, J.WF → AgreeOff (bvars t) I J → ∀ kv ∈ σ, eval J kv.1 = eval J kv.2) :
+    eval I (if ms then substMS envMs [] σ t else substMG envMs [] σ t) = eval I t := by
+  have := substG_equals ms (fun J => J.WF ∧ AgreeOff (bvars t) I J) (fun x => x ∈ bvars t) (fun _ h => h.1)
+    (fun J x v hJ hx hv => ⟨hJ.1.bind x v (hJ.1.dom_sort _ v hv), by
+      obtain ⟨h1, h2, h3, h4, h5⟩ := hJ.2
+      refine ⟨fun s hs => ?_, h2, h3, h4, h5⟩
+      have : s ≠ x := fun e => hs (e ▸ hx)
+      simp only [Interp.bind, this, if_false]
+      exact h1 s hs⟩)
+    t σ hσ hwf hn ha (fun _ h => h) hk (fun J hJ => heq J hJ.1 hJ.2) I
+    ⟨hI, fun _ _ => rfl, rfl, rfl, rfl, rfl⟩
+  cases ms <;> simpa [substMS, substMG, handlerOf_nil] using this
+
+/-! ## the result satisfies the hypotheses again -/
+
+/-- **Substitutions compose**: with well-formed, normal, type-correct replacements and well-formed
+interpretations the result is again well-formed (`wf`), normal, and of the type of `t` — every term
+(array values included), both strategies, both environment defaults. -/
+theorem subst_closed (ms envMs : Bool) (ι : IMap) (hι : IMapOKAll ι) (σ : Subst.TMap) (hσ : WfMap σ)
+    (hσn : NormalMap σ) (t : Term) (hwf : t.wf = true) (hn : normal t = true) :
+    let r := if ms then substMS envMs ι σ t else substMG envMs ι σ t
+    r.wf = true ∧ normal r = true ∧ r.typeOf = t.typeOf := by
+  cases ms <;> simp only [substMS, substMG, Bool.false_eq_true, if_false, if_true]
+  · exact substG_closed false envMs hι σ hσ hσn t hwf hn
+  · exact substG_closed true envMs hι σ hσ hσn t hwf hn
 
 /-- **Type preservation**: a type-correct term-keyed map (every value well-typed, of the type of
 its key) and type-correct interpretations give a well-typed result of the type of `t` — every term
@@ -140,11 +235,14 @@ are replaced (the pair `1 := y` is dropped by `y ↦ x`, the default changes wit
 private def tA : Term :=
   .node .arraySelect [.node .arrayValue [.sym x, .int 1, .sym y, .int 2, .int 0] (.ty .int), .sym z] .none
 
+private def σE : Subst.TMap := [(.mkAnd [.sym pS, .sym pS], .sym pS)]
+private def tE : Term := .mkOr [.mkNot (.mkAnd [.sym pS, .sym pS]), .sym pS]
+
 local macro "term_eval" : tactic => `(tactic| (
   simp only [Term.wf, Term.typeOf, Term.wt, normal, ConstKeys, pairsOf, List.tail, Op.isConstant, Term.fv, Term.fnames, normalNode, Op.shapeOK,
     Op.isQuantifier, Term.isQF, Term.subterms,
     Term.mkForall, Term.mkAnd, Term.mkNot, Term.var, Term.sym, Term.app, Term.int, Sym.var, List.map, List.all, List.filter,
-    List.flatten, List.append, Term.op, t0, tA, σ0, ι0, x, y, z, pS, fS, aS, bS] <;>
+    List.flatten, List.append, Term.op, Term.mkOr, t0, tA, tE, σE, σ0, ι0, x, y, z, pS, fS, aS, bS] <;>
   decide))
 
 example : t0.wf = true ∧ normal t0 = true ∧ ConstKeys t0 = true := ⟨by term_eval, by term_eval, by term_eval⟩
@@ -224,6 +322,39 @@ example : ¬ MSSafe σ50 := by
   intro h
   have := h (a, .mkNot (.sym xb)) (by simp [σ50]) (.sym xb) .none rfl
   simp [lookup, SMap.toTMap, σ50, Term.sym, a, xb, Sym.var] at this
+
+/-- `MSSafe` is sufficient, not necessary: `σ50` is not `MSSafe`, yet on `a ∧ x` (no negation above
+`a`) the most-specific strategy computes the same term as the most-general one, and the substitution
+lemma's conclusion holds -/
+example : substMS false [] σ50.toTMap (.mkAnd [.sym a, .sym xb]) =
+    substMG false [] σ50.toTMap (.mkAnd [.sym a, .sym xb]) := by
+  simp [substMG, substMS, substG.eq_def, handlerOf_nil, build, rebuild, mkAndN, bodyMap, Op.isQuantifier, lookup,
+    SMap.toTMap, σ50, Term.mkNot, Term.mkAnd, Term.sym, a, xb, yb, Sym.var, isBvSameWidthOp]
+
+/-! replacement of equals by equals: `(p ∧ p) ↦ p` in `¬(p ∧ p) ∨ p` -/
+example : tE.wf = true ∧ normal tE = true ∧ ConstKeys tE = true := ⟨by term_eval, by term_eval, by term_eval⟩
+example : WfMap σE ∧ NormalMap σE := by
+  constructor <;> intro kv h <;> simp only [σE, List.mem_cons, List.not_mem_nil, or_false] at h <;> subst h
+  · exact ⟨by term_eval, by term_eval⟩
+  · term_eval
+example : ∀ k ∈ arrKeys tE, ∀ kv ∈ σE, kv.1 ≠ k := by
+  intro k hk
+  simp [arrKeys, tE, Term.mkOr, Term.mkNot, Term.mkAnd, Term.sym] at hk
+example : ∀ J : Interp, J.WF → ∀ kv ∈ σE, eval J kv.1 = eval J kv.2 := by
+  intro J hJ kv h
+  simp only [σE, List.mem_cons, List.not_mem_nil, or_false] at h
+  subst h
+  have hs : (J.sym pS).hasSort .bool = true := hJ.sym pS
+  simp only [Term.mkAnd, Term.sym]
+  rw [eval_plain J .and _ _ (by decide) (by decide) rfl, eval_symbol]
+  simp only [List.map_cons, List.map_nil, eval_symbol]
+  cases hv : J.sym pS <;> rw [hv] at hs <;> simp [Val.hasSort] at hs
+  rename_i b
+  cases b <;> rfl
+/-- … and the substitution acts: the most-general strategy gives `¬p ∨ p` -/
+example : substMG false [] σE tE = .mkOr [.mkNot (.sym pS), .sym pS] := by
+  simp [substMG, substG.eq_def, handlerOf_nil, build, rebuild, mkOrN, mkNotN, mkAndN, bodyMap, Op.isQuantifier, lookup,
+    σE, tE, Term.mkNot, Term.mkAnd, Term.mkOr, Term.sym, pS, Sym.var, isBvSameWidthOp]
 
 end Examples
 
